@@ -1,4 +1,5 @@
 import UPVerif.Core.Sim
+import UPVerif.Core.SimTyped
 /-
 `SequentialPlanValidator._validate` (unified_planning/engines/plan_validator.py:117-266) and the metric
 helpers `evaluate_quality_metric` / `evaluate_quality_metric_in_final_state`
@@ -33,7 +34,9 @@ instance : DecidableEq Action := fun a b =>
     isTrue (by cases a; cases b; simp_all)
   else isFalse (by intro e; subst e; simp at h)
 
-/-- an `ActionInstance`: the action and the names of the objects given as actual parameters -/
+/-- an `ActionInstance`: the action and its actual parameters, each as the string that spells the constant
+    (object name | `true`/`false` | integer | `n` or `n/d`; read by `Sim.argExpr` according to the type of
+    the formal parameter) -/
 abbrev Inst := Action × List String
 
 /-- which branch of `_validate` produced the INVALID result (the class of the log message) -/
@@ -116,7 +119,7 @@ def costStep (W : World) (costs : List (String × Expr)) (dflt : Option Expr) (s
   | some c =>
     if ai.1.params.length ≠ ai.2.length then .ok (.stop .usage)    -- "parameters length is different"
     else
-      match eval (ctx W s) [] (substE (paramSubst W.P ai.1 ai.2) c) with
+      match eval (ctx W s) [] (substE (paramSubstT W.P ai.1 ai.2) c) with
       | .error .missing => .ok (.stop .missing)
       | .error x => .error x
       | .ok (.n q) => .ok (.go (q + acc))
@@ -145,7 +148,7 @@ def simStep (W : World) (s : SimState) (ai : Inst) : Except EvalErr (Out SimStat
   -- `_ground_action`: `if action not in self._actions: raise UPUsageError`
   if ¬ ai.1 ∈ W.P.actions then .ok (.stop .usage)
   else
-    match ground W ai.1 ai.2 with
+    match groundT W ai.1 ai.2 with
     | .error x => .error x
     | .ok none => .ok (.stop .invalidAction)
     | .ok (some g) =>
